@@ -56,9 +56,13 @@ def opPhenotype : J.Op := fun j => do
   let nenv ← J.field j "nenv" J.nat
   let nrepRaw ← J.field j "nrep" nrepIn
   let draws ← J.field j "draws" (J.list draw)
+  let nenvAfter ← J.fieldOpt j "nenvAfter" J.nat        -- `pt.nenv = ...` after construction
   match nrepSetter nenv nrepRaw with
   | none => pure (J.obj [("rejected", J.ofStr "nrep")])
-  | some nrep =>
+  | some nrep0 =>
+    match (match nenvAfter with | some m => reassignNenv m (nenv, nrep0) | none => some (nenv, nrep0)) with
+    | none => pure (J.obj [("rejected", J.ofStr "nenv")])
+    | some (nenv, nrep) =>
     match phenotype gv taxa grp trait ntrait nenv nrep draws with
     | none => pure (J.obj [("rejected", J.ofStr "phenotype")])
     | some (cols, rows) =>
@@ -200,9 +204,81 @@ def opSpecMeanBVNoGt : J.Op := fun j => do
     nr.2.length == t && (List.zip nr.2 want).all (fun ow => match ow.1 with | some o => close o ow.2 | none => false))
   pure (J.obj [("ok", J.ofBool (cover && rowsOk)), ("detail", J.ofStr s!"one_row_per_name={cover} mean={rowsOk}")])
 
+/-! ### tables with missing values (NaN = null) -/
+
+abbrev RN := Rec String Int (Option Rat)
+
+def recInNan (j : Json) : J.R RN := do
+  let taxa ← J.field j "taxa" J.str
+  let grp ← J.fieldOpt j "grp" J.int
+  let env ← J.fieldD j "env" J.nat 0
+  let rep ← J.fieldD j "rep" J.nat 0
+  let vals ← J.field j "vals" (J.list (J.opt J.rat))
+  pure { taxa, grp, env, rep, vals }
+
+def opMeanBVNan : J.Op := fun j => do
+  let recs ← J.field j "recs" (J.list recInNan)
+  let useGrp ← J.field j "useGrp" J.bool
+  let t ← J.field j "ntrait" J.nat
+  let gt ← J.fieldOpt j "gtTaxa" (J.list J.str)
+  match gt with
+  | some gtTaxa =>
+    pure (J.obj [("rows", J.ofList (J.ofList (J.ofOpt J.ofRat)) (meanBVNan keyLe useGrp t recs gtTaxa))])
+  | none =>
+    let (taxa, rows) := meanBVNanNoGt keyLe useGrp t recs
+    pure (J.obj [("taxa", J.ofList J.ofStr taxa), ("rows", J.ofList (J.ofList (J.ofOpt J.ofRat)) rows)])
+
+/-- Spec with NaN cells.  Taxon = name.  Labels aligned as before.  Per (genotype taxon, trait):
+    * no record of the taxon has a value (in particular: no record at all) ⇒ the entry is missing;
+    * every record of the taxon has a value ⇒ the entry is their arithmetic mean;
+    * some records lack the value ⇒ the property text does not say whether the mean skips them or is missing:
+      the entry must be the mean over the records that have a value, or missing (the correspondence pins it to pandas'
+      skip-NaN behaviour). -/
+def specMeanBVNan (recs : List RN) (t : Nat) (gtTaxa : List String) (outRows : List (List (Option Rat))) : Bool × String :=
+  let shape := outRows.length == gtTaxa.length && outRows.all (fun r => r.length == t)
+  let rowsOk := (List.zip gtTaxa outRows).all (fun nr =>
+    let mine := (recs.filter (fun r => r.taxa == nr.1)).map (·.vals)
+    (List.range t).all (fun j =>
+      let cells := mine.map (fun v => (v[j]?).join)
+      let present := cells.filterMap id
+      let out := (nr.2[j]?).join
+      if present.isEmpty then out.isNone
+      else
+        let m := mean present
+        match out with
+        | some o => close o m
+        | none => present.length != cells.length))
+  (shape && rowsOk, s!"shape={shape} skipnan_mean_or_missing={rowsOk}")
+
+def opSpecMeanBVNan : J.Op := fun j => do
+  let recs ← J.field j "recs" (J.list recInNan)
+  let t ← J.field j "ntrait" J.nat
+  let gtTaxa ← J.field j "gtTaxa" (J.list J.str)
+  let gtGrp ← J.fieldOpt j "gtGrp" (J.list J.int)
+  let traits ← J.field j "traits" (J.list J.str)
+  let outTaxa ← J.field j "outTaxa" (J.list J.str)
+  let outGrp ← J.fieldOpt j "outGrp" (J.list J.int)
+  let outTrait ← J.field j "outTrait" (J.list J.str)
+  let outRows ← J.field j "outRows" (J.list (J.list (J.opt J.rat)))
+  let labelsOk := outTaxa == gtTaxa && outGrp == gtGrp && outTrait == traits
+  let (ok, msg) := specMeanBVNan recs t gtTaxa outRows
+  pure (J.obj [("ok", J.ofBool (labelsOk && ok)), ("detail", J.ofStr s!"labels_aligned={labelsOk} {msg}")])
+
+/-- without genotype matrix: one row per distinct taxon name, entries as above -/
+def opSpecMeanBVNanNoGt : J.Op := fun j => do
+  let recs ← J.field j "recs" (J.list recInNan)
+  let t ← J.field j "ntrait" J.nat
+  let outTaxa ← J.field j "outTaxa" (J.list J.str)
+  let outRows ← J.field j "outRows" (J.list (J.list (J.opt J.rat)))
+  let names := (recs.map (·.taxa)).eraseDups
+  let cover := msetEq outTaxa names
+  let (ok, msg) := specMeanBVNan recs t outTaxa outRows
+  pure (J.obj [("ok", J.ofBool (cover && ok)), ("detail", J.ofStr s!"one_row_per_name={cover} {msg}")])
+
 def ops : List (String × J.Op) :=
   [("c14.phenotype", opPhenotype), ("c14.truepheno", opTruePheno), ("c14.h2", opH2), ("c14.meanbv", opMeanBV),
    ("c14.spec_pheno", opSpecPheno), ("c14.spec_h2", opSpecH2), ("c14.spec_meanbv", opSpecMeanBV),
-   ("c14.spec_meanbv_nogt", opSpecMeanBVNoGt)]
+   ("c14.spec_meanbv_nogt", opSpecMeanBVNoGt), ("c14.meanbv_nan", opMeanBVNan),
+   ("c14.spec_meanbv_nan", opSpecMeanBVNan), ("c14.spec_meanbv_nan_nogt", opSpecMeanBVNanNoGt)]
 
 end Drv.C14
